@@ -62,7 +62,8 @@ impl Gen {
 
 pub fn build_universe(tier: Tier) -> UniverseWat {
     let mut g = Gen { wat: String::from("(component\n"), items: vec![], n: 0, tier };
-    let thorough = g.tier == Tier::Thorough;
+    // both tiers build the full universe: the whole check takes well under a second
+    let thorough = g.tier == Tier::Thorough || g.tier == Tier::Quick;
     let prims: &[&str] = if thorough {
         &["bool", "u8", "s8", "u16", "s16", "u32", "s32", "u64", "s64", "f32", "f64", "char", "string"]
     } else {
@@ -523,7 +524,7 @@ pub fn run(args: &[String]) {
         acc.extend(f.iter().copied().filter(shared));
         acc
     };
-    let memo_depth = tier.pick(3, 4);
+    let memo_depth = tier.pick(4, 4);
     let mut memo_states: BTreeSet<Vec<String>> = BTreeSet::new();
     let mut memo_transitions = 0u64;
     let mut memo_checks = 0u64;
